@@ -306,9 +306,28 @@ class Normalizer(object):
             if target is None:
                 continue
             used = False
+            # `self.name` inside a method of an unrelated class is that
+            # class's own `name`, not this helper
+            foreign = set()
+            if target.cls is not None:
+                for g in self.db.funcs:
+                    if g.cls is None or g.cls is target.cls or \
+                            isinstance(g.node, ast.Lambda) or \
+                            not g.params or g.kind not in (
+                                'instance', 'class', 'property'):
+                        continue
+                    if target.cls in self.db.mro(g.cls) or \
+                            g.cls in self.db.mro(target.cls):
+                        continue
+                    for n in ast.walk(g.node):
+                        if isinstance(n, ast.Attribute) and \
+                                n.attr == name and isinstance(
+                                    n.value, ast.Name) and \
+                                n.value.id == g.params[0]:
+                            foreign.add(id(n))
             for mm in self.db.modules.values():
                 for n in ast.walk(mm.tree):
-                    if n is target.node:
+                    if n is target.node or id(n) in foreign:
                         continue
                     if isinstance(n, ast.Attribute) and n.attr == name:
                         used = True
@@ -323,7 +342,7 @@ class Normalizer(object):
                 used = False
                 for mm in self.db.modules.values():
                     for n in ast.walk(mm.tree):
-                        if id(n) in own:
+                        if id(n) in own or id(n) in foreign:
                             continue
                         if (isinstance(n, ast.Attribute) and n.attr == name)\
                                 or (isinstance(n, ast.Name) and n.id == name
@@ -472,8 +491,19 @@ class Normalizer(object):
             rounds += 1
             changed = self.split_tuple_assigns(node)
             changed |= self.scalarise_records(node, fi, ctx)
-            changed |= self.copy_prop(node)
-            changed |= self.splice_stars(node)
+            if self.scalarise_objects(node, fi, ctx):
+                # calls through the object's methods are plain calls now
+                node.body = self.inline_block(node.body, ctx, 0)
+                changed = True
+            if self.copy_prop(node):
+                # a generator / helper call propagated into a loop header or
+                # a call position can be inlined now
+                node.body = self.inline_block(node.body, ctx, 0)
+                changed = True
+            if self.splice_stars(node):
+                # f(*(a, b)) is f(a, b) now: a helper call that can be bound
+                node.body = self.inline_block(node.body, ctx, 0)
+                changed = True
             if self.canonical_statements(node, fi, ctx):
                 # the canonical spelling may expose calls of helpers
                 node.body = self.inline_block(node.body, ctx, 0)
@@ -481,6 +511,94 @@ class Normalizer(object):
         if not node.body:
             node.body = [ast.Pass()]
         ast.fix_missing_locations(node)
+
+    # -- N22: zip of a range with a generator ----------------------------------
+    def zip_range_loop(self, st, ctx, fi):
+        """for i, y in zip(range(a, b), G(..)): B
+             ->  k = a
+                 if k < b:
+                     for y in G(..):
+                         i = k;  B;  k = k + 1
+                         if not k < b: break
+           for y, i in zip(G(..), range(a, b)): B
+             ->  k = a
+                 for y in G(..):
+                     if not k < b: break
+                     i = k;  B;  k = k + 1
+        zip advances its arguments left to right and stops at the first one
+        that is exhausted: with the range first the generator is not advanced
+        once the range has run out, with the generator first it is (and what
+        it produced is dropped).  G must be a generator function of the
+        program; B without `continue`; no else clause."""
+        if not (isinstance(st, ast.For) and not st.orelse and
+                isinstance(st.iter, ast.Call) and
+                isinstance(st.iter.func, ast.Name) and
+                st.iter.func.id == 'zip' and len(st.iter.args) == 2 and
+                not st.iter.keywords and
+                isinstance(st.target, (ast.Tuple, ast.List)) and
+                len(st.target.elts) == 2) or 'zip' in self._locals(ctx):
+            return None
+        if contains(st.body, (ast.Continue,)):
+            return None
+
+        def range_args(e):
+            if isinstance(e, ast.Call) and isinstance(e.func, ast.Name) and \
+                    e.func.id == 'range' and not e.keywords and \
+                    len(e.args) in (1, 2) and \
+                    'range' not in self._locals(ctx) and not any(
+                        has_call(a) or isinstance(a, ast.Starred)
+                        for a in e.args):
+                return ([ast.Constant(value=0)] + list(e.args))[-2:]
+            return None
+
+        def is_gen(e):
+            if not isinstance(e, ast.Call):
+                return False
+            r = self.resolve_call(e, ctx)
+            return r is not None and any(
+                isinstance(x, (ast.Yield, ast.YieldFrom))
+                for x in walk_shallow(r[0].node.body))
+        a0, a1 = st.iter.args
+        if range_args(a0) is not None and is_gen(a1):
+            (lo, hi), gen, first = range_args(a0), a1, True
+            ti, ty = st.target.elts
+        elif range_args(a1) is not None and is_gen(a0):
+            (lo, hi), gen, first = range_args(a1), a0, False
+            ty, ti = st.target.elts
+        else:
+            return None
+        k = self.fresh('k')
+        ctx['names'].add(k)
+
+        def name(ctx_):
+            return ast.Name(id=k, ctx=ctx_)
+
+        def below():
+            return ast.Compare(left=name(ast.Load()), ops=[ast.Lt()],
+                               comparators=[copy.deepcopy(hi)])
+        init = ast.Assign(targets=[name(ast.Store())], value=lo)
+        take = ast.Assign(targets=[ti], value=name(ast.Load()))
+        step = ast.Assign(targets=[name(ast.Store())], value=ast.BinOp(
+            left=name(ast.Load()), op=ast.Add(),
+            right=ast.Constant(value=1)))
+        stop = ast.If(test=ast.UnaryOp(op=ast.Not(), operand=below()),
+                      body=[ast.Break()], orelse=[])
+        if first:
+            loop = ast.For(target=ty, iter=gen, body=[take] + list(st.body)
+                           + [step, stop], orelse=[])
+            new = [init, ast.If(test=below(), body=[loop], orelse=[])]
+        else:
+            loop = ast.For(target=ty, iter=gen, body=[stop, take] + list(
+                st.body) + [step], orelse=[])
+            new = [init, loop]
+        for x in new:
+            for y in ast.walk(x):
+                if isinstance(y, (ast.stmt, ast.expr)) and \
+                        not hasattr(y, 'lineno'):
+                    ast.copy_location(y, st)
+            ast.fix_missing_locations(x)
+        self.stats['zip_loops'] = self.stats.get('zip_loops', 0) + 1
+        return new
 
     # -- N19: an assignment expression evaluated unconditionally ---------------
     WALRUS_HEADS = {ast.If: 'test', ast.Expr: 'value', ast.Assign: 'value',
@@ -668,6 +786,12 @@ class Normalizer(object):
                     changed[0] = True
                     i += 1
                     continue
+                zr = self.zip_range_loop(st, ctx, fi)
+                if zr is not None:
+                    out.extend(zr)
+                    changed[0] = True
+                    i += 1
+                    continue
                 pre = self.hoist_walrus(st)
                 if pre:
                     out.extend(pre)
@@ -782,6 +906,13 @@ class Normalizer(object):
                 return all(table_elem(a, ci) for a in x.args) and all(
                     k.arg is not None and table_elem(k.value, ci)
                     for k in x.keywords)
+            if isinstance(x, ast.Call) and me.namedtuple_fields(
+                    x.func, fi.module) is not None and \
+                    table_elem(x.func, ci):
+                # a record of constants: a tuple, the same wherever built
+                return all(isinstance(a, ast.Constant) for a in x.args) and \
+                    all(k.arg is not None and isinstance(
+                        k.value, ast.Constant) for k in x.keywords)
             return False
 
         def table_rows(st):
@@ -1248,6 +1379,16 @@ class Normalizer(object):
                 if owner.kind == 'class' and target.kind == 'instance':
                     return None
                 recv = f.value
+        elif isinstance(f, ast.Attribute) and isinstance(
+                f.value, ast.Name) and f.value.id in self.object_locals(ctx):
+            # a method of a small in-repo object that lives in this local
+            # and nowhere else (N23)
+            ci = self.object_locals(ctx)[f.value.id]
+            target = db.find_method(ci, f.attr)
+            if target is None or target.kind != 'instance' or \
+                    target.cls is not ci:
+                return None
+            recv = f.value
         elif isinstance(f, (ast.Name, ast.Attribute)):
             try:
                 ent = db.resolve_dotted(fi.module, f, class_scope=None)
@@ -1310,6 +1451,157 @@ class Normalizer(object):
         if exp.get(id(target), 0) > 6:
             return None
         return target, node.value
+
+    def object_locals(self, ctx):
+        """{local name: class} for locals bound once, to `C(...)` with C a
+        small plain class of this module (no bases, no subclasses, only
+        ordinary methods), and mentioned otherwise only as `v.name`: the
+        object cannot be seen from anywhere else."""
+        key = '_objlocals'
+        if key in ctx:
+            return ctx[key]
+        out = ctx[key] = {}
+        fi = ctx['fi']
+        fnode = fi.node
+        if isinstance(fnode, ast.Lambda):
+            return out
+        db = self.db
+        par = {}
+        for x in ast.walk(fnode):
+            for c in ast.iter_child_nodes(x):
+                par[id(c)] = x
+        nested = set()
+        for x in ast.walk(fnode):
+            if x is not fnode and isinstance(x, (
+                    ast.FunctionDef, ast.AsyncFunctionDef, ast.Lambda,
+                    ast.ClassDef, ast.ListComp, ast.SetComp, ast.DictComp,
+                    ast.GeneratorExp)):
+                nested.update(y.id for y in ast.walk(x)
+                              if isinstance(y, ast.Name))
+        names = {}
+        for x in ast.walk(fnode):
+            if isinstance(x, ast.Name):
+                names.setdefault(x.id, []).append(x)
+        params = set(a.arg for a in ast.walk(fnode.args)
+                     if isinstance(a, ast.arg))
+        for v, occ in names.items():
+            if v in nested or v in params:
+                continue
+            stores = [x for x in occ if isinstance(x.ctx, (ast.Store,
+                                                           ast.Del))]
+            if len(stores) != 1:
+                continue
+            a = par.get(id(stores[0]))
+            if not (isinstance(a, ast.Assign) and len(a.targets) == 1 and
+                    a.targets[0] is stores[0] and
+                    isinstance(a.value, ast.Call) and
+                    isinstance(a.value.func, ast.Name)):
+                continue
+            try:
+                ci = db.deref(db.resolve_dotted(fi.module, a.value.func))
+            except AnalysisError:
+                continue
+            if ci.__class__.__name__ != 'ClassInfo' or \
+                    ci.module is not fi.module or a.value.func.id in \
+                    self._locals(ctx):
+                continue
+            if [b for b in (ci.bases or []) if getattr(
+                    b, 'dotted', None) not in ('object', 'builtins.object')] \
+                    or db.subclasses(ci) or ci.node.keywords or \
+                    ci.node.decorator_list:
+                continue
+            okk = True
+            for nm, defs in ci.attrs.items():
+                d = defs[-1]
+                if d.kind == 'def':
+                    if d.value.kind != 'instance' or \
+                            d.value.node.decorator_list or (
+                                nm.startswith('__') and nm != '__init__'):
+                        okk = False
+                elif d.kind == 'assign':
+                    if nm not in ('__slots__', '__doc__'):
+                        okk = False
+                else:
+                    okk = False
+            if not okk:
+                continue
+            if all(isinstance(par.get(id(u)), ast.Attribute) and
+                   par[id(u)].value is u
+                   for u in occ if u is not stores[0]):
+                out[v] = ci
+        return out
+
+    def scalarise_objects(self, fnode, fi, ctx):
+        """N23: v = C(args) for an object local (see object_locals) whose
+        method calls have all been inlined: the constructor's body in its
+        place, and every `v.name` a local `v_name`."""
+        ctx.pop('_objlocals', None)
+        ctx.pop('_locals', None)
+        objs = self.object_locals(ctx)
+        for v, ci in sorted(objs.items()):
+            par = {}
+            for x in ast.walk(fnode):
+                for c in ast.iter_child_nodes(x):
+                    par[id(c)] = x
+            uses = [x for x in ast.walk(fnode) if isinstance(x, ast.Name)
+                    and x.id == v]
+            attrs = [par[id(u)] for u in uses
+                     if isinstance(par.get(id(u)), ast.Attribute)]
+            if any(isinstance(par.get(id(a)), ast.Call) and
+                   par[id(a)].func is a for a in attrs):
+                continue        # a method call that was not inlined
+            if any(a.attr in ci.attrs and ci.attrs[a.attr][-1].kind == 'def'
+                   for a in attrs):
+                continue        # a bound method taken as a value
+            store = [u for u in uses if isinstance(u.ctx, ast.Store)][0]
+            asg = par[id(store)]
+            init = self.db.find_method(ci, '__init__')
+            new = []
+            if init is not None:
+                if contains(init.node.body, (ast.Return, ast.Yield,
+                                             ast.YieldFrom)):
+                    continue
+                try:
+                    prefix, body = self.instantiate(
+                        init, ast.Name(id=v, ctx=ast.Load()), asg.value, ctx)
+                except NotInlinable:
+                    continue
+                new = prefix + body
+            elif asg.value.args or asg.value.keywords:
+                continue
+            names = {}
+
+            def local(attr):
+                if attr not in names:
+                    nm = '%s_%s' % (v, attr)
+                    if nm in ctx['names']:
+                        nm = self.fresh(nm)
+                    ctx['names'].add(nm)
+                    names[attr] = nm
+                return names[attr]
+            placed = False
+            for owner, f, block in self._blocks(fnode):
+                for k, b in enumerate(block):
+                    if b is asg:
+                        block[k:k + 1] = new or [ast.copy_location(
+                            ast.Pass(), asg)]
+                        placed = True
+                        break
+                if placed:
+                    break
+            if not placed:
+                continue
+            for x in list(ast.walk(fnode)):
+                if isinstance(x, ast.Attribute) and isinstance(
+                        x.value, ast.Name) and x.value.id == v:
+                    replace_node(fnode, x, ast.copy_location(ast.Name(
+                        id=local(x.attr), ctx=x.ctx), x))
+            self.stats['objects'] = self.stats.get('objects', 0) + 1
+            ast.fix_missing_locations(fnode)
+            ctx.pop('_objlocals', None)
+            ctx.pop('_locals', None)
+            return True
+        return False
 
     def _locals(self, ctx):
         key = '_locals'
@@ -1853,10 +2145,35 @@ class Normalizer(object):
         if len(ys) != 1 or not isinstance(ys[0], ast.Yield):
             return None
         bare_returns = contains(body, (ast.Return,))
-        # consumer body must not break (it would have to leave every loop of
-        # the generator)
-        for n in walk_shallow(loop.body):
-            if isinstance(n, ast.Break):
+        # a `break` of the consumer abandons the generator: as a `break`
+        # placed at the yield it leaves one loop only, so the yield must sit
+        # directly in the body of a loop that is the generator's last
+        # statement (nothing of the generator runs after it either way) and
+        # in no try / with of the generator (their clean-up runs on close)
+        brk = False
+        depth_ = [0]
+
+        def own_breaks(stmts):
+            for x in stmts:
+                if isinstance(x, ast.Break):
+                    return True
+                if isinstance(x, (ast.For, ast.While, ast.FunctionDef,
+                                  ast.AsyncFunctionDef, ast.ClassDef)):
+                    if isinstance(x, (ast.For, ast.While)) and \
+                            own_breaks(x.orelse):
+                        return True
+                    continue
+                for owner, f in sub_blocks(x):
+                    if own_breaks(getattr(owner, f)):
+                        return True
+            return False
+        if own_breaks(loop.body):
+            last = body[-1] if body else None
+            if not (isinstance(last, (ast.For, ast.While)) and
+                    not last.orelse and any(
+                        isinstance(x, ast.Expr) and x.value is ys[0]
+                        for x in last.body)) or contains(
+                            body[:-1], (ast.Yield, ast.YieldFrom)):
                 return None
         try:
             prefix, gbody = self.instantiate(target, recv, loop.iter, ctx)
@@ -2449,10 +2766,25 @@ def materialise_factories(db):
                         isinstance(tg, ast.Name):
                     outer_wrap, v = v.func.id, v.args[0]
                 if not (isinstance(v, ast.Call) and isinstance(
-                        v.func, ast.Name) and v.func.id in factories
-                        and not v.keywords):
+                        v.func, ast.Name) and v.func.id in factories):
                     continue
                 fdef, pre, outs, is_tuple = factories[v.func.id]
+                if v.keywords:
+                    # arguments given by name take their parameter's place
+                    fpar = [x.arg for x in fdef.args.args]
+                    kws = {k.arg: k.value for k in v.keywords}
+                    pos = list(v.args)
+                    if None in kws or fdef.args.vararg is not None or any(
+                            isinstance(a, ast.Starred) for a in pos):
+                        continue
+                    for pn in fpar[len(pos):]:
+                        if pn not in kws:
+                            break
+                        pos.append(kws.pop(pn))
+                    if kws:
+                        continue
+                    v = ast.copy_location(ast.Call(func=v.func, args=pos,
+                                                   keywords=[]), v)
                 if is_tuple != isinstance(tg, (ast.Tuple, ast.List)) or \
                         len(outs) != len(names):
                     continue
